@@ -95,6 +95,9 @@ St(T, fs)   == [k |-> "struct", n |-> 0, s |-> T, re |-> FALSE, fs |-> fs]
 Ptr(T, fs)  == [k |-> "ptr", n |-> 0, s |-> T, re |-> FALSE, fs |-> <<St(T, fs)>>]
 NilPtr(T)   == [k |-> "nilptr", n |-> 0, s |-> T, re |-> FALSE, fs |-> <<>>]
 Sl(T, es)   == [k |-> "slice", n |-> 0, s |-> T, re |-> FALSE, fs |-> es]
+\* arguments Var cannot validate: a struct value, a nil interface (the call ends early with one error)
+BadVar == [k |-> "badvar", n |-> 0, s |-> "", re |-> FALSE, fs |-> <<>>]
+NilVar == [k |-> "nilvar", n |-> 0, s |-> "", re |-> FALSE, fs |-> <<>>]
 Sab == S("ab", 2, TRUE)
 Szz == S("zz", 2, FALSE)
 Se  == S("", 0, FALSE)
@@ -159,7 +162,10 @@ Menu12 == <<
   DStruct("m13", "T4", "valid", ValsC("T4")[1], <<>>, <<>>, <<>>),      \* either group violated and A missing: two clauses
   DStruct("m14", "T4", "valid", ValsC("T4")[2], <<>>, <<>>, <<>>),      \* group satisfied, A missing: one clause
   \* a nil root pointer handed over together with rule sets and functions: the call ends early with one error
-  DStruct("m15", "T1", "valid", NilPtr("T1"), <<>>, UnscopedOf("T1"), <<"p_t6">>) >>
+  DStruct("m15", "T1", "valid", NilPtr("T1"), <<>>, UnscopedOf("T1"), <<"p_t6">>),
+  \* Var on something it cannot validate, with rules and functions set: ends early, and must leave nothing behind
+  DVar("m16", BadVar, <<R_ge(8), R_fn("p_t5")>>, <<"p_t5">>),
+  DVar("m17", NilVar, <<R_reqm("never asked")>>, <<>>) >>
 
 (* the product family used by the concurrent streams *)
 NT == Len(RootTypes)
@@ -266,6 +272,8 @@ Eval(d, cfg) ==
   CASE d.car = "struct" /\ d.val.k = "nilptr" ->        \* a nil root pointer: one error, nothing walked (fix 00f6dc3)
          <<Cl("", "other", "src \"*main." \o Types[d.T].name \o "\" is nil", "")>>
     [] d.car = "struct" -> EvObj(cfg, d.T, Types[d.T].name, 0, d.val) \o EvGroups(cfg, d.T, d.val)
+    [] d.car = "var" /\ d.val.k = "badvar" -> <<Cl("", "other", "src no support", "")>>
+    [] d.car = "var" /\ d.val.k = "nilvar" -> <<Cl("", "other", "src is nil", "")>>
     [] d.car = "var"    -> EvRules(cfg, "", "", 0, d.val, RMGet(cfg.unscoped, "validVar"))
     [] d.car = "map"    -> FlattenSeq([i \in 1..Len(d.entries) |->
                               EvRules(cfg, "", MapField(d.entries[i].k), 0, d.entries[i].v, RMGet(cfg.unscoped, d.entries[i].k))])
